@@ -558,7 +558,7 @@ def part_accepted_compiles(chk, thorough):
         src = "%s#[derive(derive_more::%s)] %s" % (PREREQ.get(d, ""), d, it)
         cases.append(Case("g%d" % len(cases), "#[allow(unused_imports)] use super::*;\n" + src, has_run=False, meta=dict(derive=d, src=src, twin=it, on_all=(d, it) in on_all,
                                                                                                                    known="c01-generic-parameter-naming-lints" if re.search(r"S<(t|r#type)\b", it.replace(" ", "")) else
-                                                                                                                   ("c01-implicit-object-lifetime-behind-pointer" if re.search(r"\*(const|mut)dyn::core::fmt::Debug[,)]", it.replace(" ", "")) and "ref" in it else None))))
+                                                                                                                   ("c01-implicit-object-lifetime-behind-pointer" if re.search(r"\*(const|mut)dyn::core::fmt::Debug[,)};]", it.replace(" ", "")) and "ref" in it else None))))
     # the companion impl a derive builds on written by hand instead of derived (deref_mut.md: "requires that the type also implements
     # Deref, so usually Deref should also be derived"; likewise IndexMut/Index and Sum/Add), on generic types
     # known finding: `#[deref_mut(forward)]` adds `where FieldTy: DerefMut`; once that predicate mentions a parameter it hides what
